@@ -90,19 +90,40 @@ Theorem C19_java_lit_roundtrip : forall s, wf_text s ->
 Proof. exact (java_roundtrip java_side). Qed.
 Print Assumptions C19_java_lit_roundtrip.
 
-(** ** C++ wide string (32-bit wchar_t), narrow string, wide character *)
+(** ** C++ wide string (32-bit wchar_t), narrow string, wide character
 
-Theorem C19_cpp_wstring_lit_roundtrip : forall s, wf_text s ->
+    Full statements (for the C++11 the generated SDK is compiled as, where translation
+    phase 1 replaces trigraphs):
+      C19_cpp_wstring_lit_roundtrip : forall s, wf_text s ->
+        exists l, cpp_wstring_literal s = Ok l /\ lex_cpp11_string true l = Some s
+      C19_cpp_string_lit_roundtrip  : the same for ASCII s and [lex_cpp11_string false].
+    They are FALSE of the code ([C19_cpp11_trigraph_refuted]): a question mark is emitted
+    verbatim, so [??/] in the text becomes a backslash in the literal. Escaping [?] would
+    change the recorded golden C++ files (regex patterns contain [?]), so this is a known
+    finding and not repaired. Proved instead ([_partial]): the round trip for every string
+    under the lexer without trigraph replacement (C++17 and later, g++ default mode). *)
+Theorem C19_cpp_wstring_lit_roundtrip_partial : forall s, wf_text s ->
   exists l, cpp_wstring_literal s = Ok l /\ lex_cpp_string true l = Some s.
 Proof. exact (cpp_wstring_roundtrip cpp_wstring_side). Qed.
-Print Assumptions C19_cpp_wstring_lit_roundtrip.
+Print Assumptions C19_cpp_wstring_lit_roundtrip_partial.
 
-
-Theorem C19_cpp_string_lit_roundtrip : forall s, wf_text s ->
+Theorem C19_cpp_string_lit_roundtrip_partial : forall s, wf_text s ->
   cpp_string_representable s = true ->
   exists l, cpp_string_literal s = Ok l /\ lex_cpp_string false l = Some s.
 Proof. exact (cpp_string_roundtrip cpp_string_side). Qed.
-Print Assumptions C19_cpp_string_lit_roundtrip.
+Print Assumptions C19_cpp_string_lit_roundtrip_partial.
+
+Theorem C19_cpp11_trigraph_refuted :
+  exists s l, wf_text s /\ cpp_wstring_literal s = Ok l /\ lex_cpp11_string true l <> Some s
+              /\ exists s' l', cpp_string_literal s' = Ok l' /\ lex_cpp11_string false l' = Some [97; 124]
+                               /\ s' <> [97; 124].
+Proof.
+  exists [63; 63; 47], (s2l "L""??/"""). split; [repeat constructor; vm_compute; discriminate |].
+  split; [vm_compute; reflexivity |]. split; [vm_compute; discriminate |].
+  exists [97; 63; 63; 33], (s2l """a??!"""). split; [vm_compute; reflexivity |].
+  split; [vm_compute; reflexivity | discriminate].
+Qed.
+Print Assumptions C19_cpp11_trigraph_refuted.
 
 Theorem C19_cpp_string_lit_reports : forall s,
   cpp_string_representable s = false -> cpp_string_literal s = Err RViolation.
@@ -141,8 +162,8 @@ Print Assumptions C19_go_lit_reports.
 
 (** ** Non-vacuity: the suspects of the property text, through escaper and lexer *)
 Example C19_nonvacuous :
-  cpp_wstring_literal [1; 102; 55296; 97; 63; 63; 47]
-    = Ok (s2l "L""\001f\xd800"" L""a\?\?/""")
+  cpp_wstring_literal [1; 102; 55296; 97; 63]
+    = Ok (s2l "L""\001f\xd800"" L""a?""")
   /\ lex_cpp_string true (s2l "L""\x1f""") = Some [31]
   /\ go_string_literal [1; 97; 98] = Ok (s2l """\x01ab""")
   /\ lex_go (s2l """\x1ab""") = Some [26; 98]
